@@ -20,6 +20,6 @@ def run(tier, seed, cx):
                               replay_cmd='%s/%s/h_par %d %d' % (cx['TARGET'], prof, seed, worlds)), True))
         samples.append('%s: %s' % (prof, last))
     cov = dict(evaluations=total_checks, distinct_nontrivial=total_checks,
-               rule='h_par: %d generated worlds per profile (0..6000 entities over subsets of {K0,K1,K3}, with churn), 6 typed fetchers (read, mutable, optional, With (zero-sized state), Or, into_par_iter), pools of 1,2,3,4,8,16 threads, with and without per-item delay; each evaluation compares the sorted items visited in parallel with sequential iteration of the same fetcher (non-trivial = every one: populations are regenerated per world)' % worlds,
+               rule='h_par: %d generated worlds per profile (0..6000 entities over subsets of {K0,K1,K3} or, in every second world, of all six component types = up to 64 archetypes, with churn), 6 typed fetchers (read, mutable, optional, With (zero-sized state), Or, into_par_iter), pools of 1,2,3,4,8,16 threads, with and without per-item delay; each evaluation compares the sorted items visited in parallel with sequential iteration of the same fetcher (non-trivial = every one: populations are regenerated per world)' % worlds,
                samples=samples, par_wall_s=round(time.time() - t0, 1))
     return viol, cov
